@@ -123,7 +123,9 @@ def numWorkersLayered (maxW : Nat) (le : List Nat) : Nat := min maxW (le.length 
 /-- the three steps on a function `index ↦ first layer`; `none` = wrap-around or a failed XASSERT -/
 def threadLayersFn (nW numElems : Nat) (le : List Nat) : Option (Nat → Nat) :=
   let numLayers := le.length - 1
-  let tl0 : Nat → Nat := fun i => if i < nW then step1 le numElems numLayers nW i else numLayers
+  -- step 1 is tabulated once (`_thread_layers` is a vector): entry `i < nW` is `step1 … i`, the last one `numLayers`
+  let t0 := (List.range nW).map (step1 le numElems numLayers nW)
+  let tl0 : Nat → Nat := fun i => t0.getD i numLayers
   match sweepBack (nW - 1) tl0 with
   | none => none
   | some tl2 =>
